@@ -27,7 +27,7 @@ ASSUMPTIONS = [
 ]
 BUDGET = {'quick': 4000, 'thorough': 100000}
 MODES = ['deep', 'shallow', 'copy', 'deepcopy', 'override']
-PRE_OPS = ['seal', 'unseal', 'aw_off', 'aw_on']
+PRE_OPS = ['seal', 'unseal', 'aw_off', 'aw_on', 'refto', 'dnabound']
 POST_OPS = treeops.LIST_OPS + treeops.DICT_OPS + treeops.OBJ_OPS + ['rebind_path', 'rebind_multi',
                                                                     'unseal', 'aw_on', 'opaque']
 
@@ -122,6 +122,24 @@ def _apply_flag_op(root, op):
   n = nodes[op.get('t', 0) % len(nodes)]
   name = op['op']
   try:
+    if name == 'refto':
+      # a reference whose target is also held by a non-symbolic leaf stored in front of it
+      # (references to nodes of the same tree are refused by the library)
+      holders = [h for h in nodes if isinstance(h, pg.Dict) and getattr(h, 'value_spec', None) is None]
+      if holders:
+        h = holders[op.get('t', 0) % len(holders)]
+        target = pg.Dict(k=[1, 2])
+        h['zbox'] = classes.Opaque(target)
+        h['zref'] = pg.Ref(target)
+      return n
+    if name == 'dnabound':
+      spec = pg.dna_spec(pg.Dict(x=pg.oneof([1, 2, 3], name='x'), y=pg.manyof(2, [1, 2, 3], name='y')))
+      dna = pg.DNA.from_numbers([1, 0, 2], spec)
+      _ = dna['x'], dna['y'], dna.named_decisions     # (lookup tables are built lazily)
+      holders = [h for h in nodes if isinstance(h, pg.Dict) and getattr(h, 'value_spec', None) is None]
+      if holders:
+        holders[op.get('t', 0) % len(holders)]['zdna'] = dna
+      return n
     if name == 'seal':
       n.seal()
     elif name == 'unseal':
@@ -228,6 +246,17 @@ def execute(case):
       if not (isinstance(b, pg.Ref) and a.value is b.value):
         return res.violate('Ref at %s does not share its target after %s' % (where, mode), law='ref-not-shared', mode=mode)
       continue
+    if isinstance(a, pg.DNA) and isinstance(b, pg.DNA) and b.spec is not None and b is not a:
+      # lookups on the clone must hand out nodes of the clone
+      for key in ('x', 'y'):
+        try:
+          got = b[key]
+        except Exception:   # pylint: disable=broad-except
+          continue
+        for node in (got if isinstance(got, list) else [got]):
+          if isinstance(node, pg.DNA) and node.sym_root is not b.sym_root:
+            return res.violate('lookup %r on the %s clone of a DNA returns a node of another tree (the original)' % (key, mode),
+                               law='lookup-leaves-clone', mode=mode)
     if isinstance(a, pg.Symbolic):
       if type(a) is not type(b):
         return res.violate('node at %s: class %s vs %s' % (where, type(a).__name__, type(b).__name__),
@@ -278,7 +307,7 @@ def execute(case):
     if name in ('unseal', 'aw_on'):
       _apply_flag_op(sides[side], op)
     elif name == 'opaque':
-      ops_ = _opaques(sides[side])
+      ops_ = [x for x in _opaques(sides[side]) if isinstance(x.v, int)]
       if ops_:
         ops_[op.get('i', 0) % len(ops_)].v += 10
     else:
